@@ -1,1 +1,198 @@
-// harness module for C09 (not written yet)
+// Verification harness for C09 (propagation rules and attribute rewriting), compiled into
+// rustybgpd's unit-test binary only with `--cfg osrg_rustybgp_verif` and `--cfg verif_c09`
+// (or verif_all).  Grand-child of `crate::event`, so it reaches the private `export` module
+// (`process_nlri_change`, `PeerExportContext`, `ExportMap`, `NlriSink`, `is_as_loop`) and
+// `PeerSession::{new_for_test, rx_update}`.
+//
+// Case syntax: lean/Rbgp/Export/Codec.lean.  `(exp …)` runs the REAL `process_nlri_change` on a
+// one-path `NlriChange` with an empty export map and a collecting sink; `(rx …)` runs the loop
+// tests in front of the RIB exactly as `run_select` chains them (`is_as_loop` ⇒ skip, else
+// `rx_update`) on a `PeerSession` without a socket and reports whether the prefix got installed.
+#![allow(dead_code)]
+
+use super::super::export::{self, ExportMap, NlriSink, PeerExportContext};
+use super::super::*;
+
+#[path = "/verif/harness/daemon/export_common.rs"]
+mod xc;
+use xc::*;
+
+#[derive(Default)]
+struct CollectSink {
+    calls: Vec<Term>,
+}
+
+impl NlriSink for CollectSink {
+    fn reach(
+        &mut self,
+        _dest_id: u32,
+        _nlri: packet::Nlri,
+        path_id: u32,
+        nexthop: Option<bgp::Nexthop>,
+        attr: Arc<Vec<packet::Attribute>>,
+        _source: &Arc<table::Source>,
+    ) {
+        self.calls.push(Term::tag(
+            "reach",
+            vec![Term::nat(path_id), nh_t(&nexthop), attrs_t(&attr)],
+        ));
+    }
+    fn unreach(&mut self, _dest_id: u32, _nlri: packet::Nlri, path_id: u32) {
+        self.calls
+            .push(Term::tag("unreach", vec![Term::nat(path_id)]));
+    }
+}
+
+fn run_exp(args: &[Term]) -> Option<String> {
+    let [ctx, sess, pol, src, path] = args else {
+        return None;
+    };
+    let ctx = ctx_of(ctx)?;
+    let [raddr, cluster, mx, fam] = sess.tagged("sess")? else {
+        return None;
+    };
+    let remote_addr = addr_of(raddr)?;
+    let cluster_id = opt32(cluster)?.map(Ipv4Addr::from);
+    let mx = nat_small(mx)?;
+    if mx == 0 || mx > 8 {
+        return None;
+    }
+    let family = family_of(fam)?;
+    let policy = policy_of(pol)?;
+    let source = source_of(src)?;
+    let [pid, nh, attrs] = path.tagged("path")? else {
+        return None;
+    };
+    let p = table::Path {
+        local_path_id: nat32(pid)?,
+        source,
+        nexthop: nh_opt_of(nh)?,
+        attr: Arc::new(attrs_of(attrs)?),
+    };
+    let change = table::NlriChange {
+        family,
+        net: packet::Nlri::V4(packet::bgp::Ipv4Net {
+            addr: Ipv4Addr::new(10, 9, 0, 0),
+            mask: 24,
+        }),
+        dest_id: 1,
+        best_changed: true,
+        any_changed: true,
+        replaced_path_id: None,
+        current_paths: Arc::new(vec![p]),
+    };
+    let mut export_map = if mx > 1 {
+        ExportMap::new([family])
+    } else {
+        ExportMap::default()
+    };
+    let mut sink = CollectSink::default();
+    export::process_nlri_change(
+        &change,
+        mx as usize,
+        remote_addr,
+        &mut export_map,
+        &mut sink,
+        &ctx,
+        policy.as_deref(),
+        cluster_id,
+        None,
+        None,
+        None,
+    );
+    Some(match sink.calls.len() {
+        0 => "suppressed".to_string(),
+        1 if sink.calls[0].head() == Some("reach") => sink.calls[0].to_string(),
+        _ => "other".to_string(),
+    })
+}
+
+fn run_rx(rt: &tokio::runtime::Runtime, args: &[Term]) -> Option<String> {
+    let [lasn, confed, rid, cluster, role, attrs] = args else {
+        return None;
+    };
+    let local_asn = nat32(lasn)?;
+    let confed = nat32(confed)?;
+    let rid = nat32(rid)?;
+    let cluster = opt32(cluster)?;
+    let role = role_of(role)?;
+    let attr = Arc::new(attrs_of(attrs)?);
+    let installed = rt.block_on(async move {
+        let tables: TableHandle = Arc::new(TableManager::new(1));
+        let remote_addr = IpAddr::V4(Ipv4Addr::new(10, 0, 0, 7));
+        let mut s = PeerSession::new_for_test(remote_addr, make_context(), tables.clone());
+        s.export_ctx.role = role;
+        s.export_ctx.local_asn = local_asn;
+        s.export_ctx.confederation_id = confed;
+        s.local_router_id = Ipv4Addr::from(rid);
+        s.cluster_id = cluster.map(Ipv4Addr::from);
+        s.source.insert(
+            Family::IPV4,
+            Arc::new(table::Source::new(
+                remote_addr,
+                IpAddr::V4(Ipv4Addr::new(127, 0, 0, 1)),
+                if matches!(role, PeerRole::Ibgp | PeerRole::IbgpRrClient) {
+                    local_asn
+                } else {
+                    64999
+                },
+                local_asn,
+                Ipv4Addr::new(10, 0, 0, 7),
+                role,
+            )),
+        );
+        let net = packet::Nlri::V4(packet::bgp::Ipv4Net {
+            addr: Ipv4Addr::new(10, 9, 0, 0),
+            mask: 24,
+        });
+        // run_select: `if let Update::Reach{attr,..} = &msg && is_as_loop(..) { continue; }`
+        // then rx_msg -> rx_update (transcribed chaining; both functions are the real ones)
+        if !export::is_as_loop(&attr, s.export_ctx.local_asn, s.export_ctx.confederation_id) {
+            let reach = packet::bgp::ReachNlri {
+                family: Family::IPV4,
+                entries: vec![packet::PathNlri::new(net)],
+                nexthop: Some(bgp::Nexthop::V4(Ipv4Addr::new(10, 0, 0, 7))),
+            };
+            let _ = s.rx_update(Some(reach), None, attr, 0).await;
+        }
+        tables.table_state(Family::IPV4).num_path > 0
+    });
+    Some(Term::tag("installed", vec![Term::boolean(installed)]).to_string())
+}
+
+fn run_case(rt: &tokio::runtime::Runtime, line: &str) -> String {
+    let Some(t) = Term::parse(line) else {
+        return "(bad-case)".into();
+    };
+    let r = if let Some(args) = t.tagged("exp") {
+        run_exp(args)
+    } else if let Some(args) = t.tagged("rx") {
+        run_rx(rt, args)
+    } else {
+        None
+    };
+    r.unwrap_or_else(|| "(bad-case)".into())
+}
+
+#[test]
+fn verif_main() {
+    let (Ok(prop), Ok(inp), Ok(out)) = (
+        std::env::var("VERIF_PROP"),
+        std::env::var("VERIF_IN"),
+        std::env::var("VERIF_OUT"),
+    ) else {
+        return; // not invoked by /verif/check
+    };
+    if prop != "C09" {
+        return;
+    }
+    let rt = tokio::runtime::Builder::new_current_thread()
+        .enable_all()
+        .build()
+        .unwrap();
+    std::panic::set_hook(Box::new(|_| {}));
+    sexp::run_lines(&inp, &out, |l| {
+        std::panic::catch_unwind(std::panic::AssertUnwindSafe(|| run_case(&rt, l)))
+            .unwrap_or_else(|_| "(panic)".into())
+    });
+}
